@@ -146,7 +146,7 @@ def collect(ctx, mode):
     cases, recs = [], []
 
     # --- S->C: exported behaviours of the design layer ---------------------
-    behs = ctx.export("Gen_ShardWriter", workers=8)
+    behs = ctx.export("Gen_ShardWriter", ctx.pick("Gen_ShardWriter", "Gen_ShardWriter_thorough"), workers=8)
     behs = [json.loads(b[1]) for b in behs]
     behs.sort(key=lambda b: json.dumps(b, sort_keys=True))
     take = ctx.pick(350, len(behs))
